@@ -21,7 +21,11 @@ func (td TypeDeclaration) HoverAtPos(ctx context.Context, pos hcl.Pos) *lang.Hov
 		}
 
 		if eType.Range().ContainsPos(pos) {
-			typ, _ := typeexpr.TypeConstraint(eType)
+			typ, diags := typeexpr.TypeConstraint(eType)
+			if diags.HasErrors() {
+				// not a type keyword
+				return nil
+			}
 			content, err := hoverContentForType(typ, 0)
 			if err != nil {
 				return nil
